@@ -821,7 +821,10 @@ OUTSIDE = [
     ("def f(x):\n    return x[::2]\n", [("x", "Bytes")], "Bytes"),
     ("def f(x):\n    for i in x:\n        pass\n    return 0\n", [("x", "Int")], "Int"),
     ("def f(x):\n    k = 255\n    for t in x:\n        k = t\n    return 0\n", [("x", "List Bytes")], "Int"),
-    ("def f(x):\n    for i in range(3):\n        if i == x:\n            break\n    return 0\n", [("x", "Int")], "Int"),
+    ("def f(x):\n    for i in range(3):\n        if i == x:\n            continue\n    return 0\n", [("x", "Int")], "Int"),
+    ("def f(x):\n    while x > 0:\n        x -= 1\n    else:\n        x = 5\n    return x\n", [("x", "Int")], "Int"),
+    ("def f(x):\n    try:\n        return x[0]\n    except KeyError:\n        return 1\n    finally:\n        pass\n", [("x", "Bytes")], "Int"),
+    ("def f(d, k):\n    return d[k] in \"ab\"\n", [("d", "Table Str; Nat"), ("k", "Str")], "Bool"),
     ("def f(x):\n    y = bytearray(x)\n    z = y\n    z.extend(x)\n    return y\n", [("x", "Bytes")], "Bytes"),
     ("def f(x):\n    return x == b'a'\n", [("x", "Int")], "Bool"),
     ("def f(x):\n    if x > 0:\n        return 1\n", [("x", "Int")], "Int"),
